@@ -31,6 +31,7 @@ int __real_eventfd(unsigned, int);
 int __real_timerfd_create(int, int);
 int __real_timerfd_settime(int, int, const struct itimerspec *, struct itimerspec *);
 FILE *__real_fopen(const char *, const char *);
+size_t __real_fread(void *, size_t, size_t, FILE *);
 int __real_fclose(FILE *);
 int __real_open(const char *, int, ...);
 int __real_unlink(const char *);
@@ -276,6 +277,26 @@ FILE *__wrap_fopen(const char *path, const char *mode)
     ev("open", -1, -1, 0, f ? fileno(f) : -1, f ? 0 : e, in_lib ? LC_OPEN : 0, 0, pi);
     errno = e;
     return f;
+}
+
+/* a stream that opened but cannot be read: the descriptor underneath is replaced by one of a directory, so that the
+   read(2) made by the real fread() fails (EISDIR) and the stream's error indicator is set, as for any read error */
+size_t __wrap_fread(void *p, size_t sz, size_t n, FILE *f)
+{
+    int inj = f ? gate(LC_READ) : 0;
+    if (inj) {
+	int d = __real_open("/", O_RDONLY | O_DIRECTORY | O_CLOEXEC);
+	if (d >= 0) {
+	    __real_dup2(d, fileno(f));
+	    __real_close(d);
+	}
+    }
+    size_t r = __real_fread(p, sz, n, f);
+    int e = errno;
+    if (in_lib)
+	ev("fread", f ? fileno(f) : -1, -1, 0, inj ? -1 : (long)r, inj ? EISDIR : 0, LC_READ, inj ? 1 : 0, -1);
+    errno = e;
+    return r;
 }
 
 int __wrap_fclose(FILE *f)
